@@ -363,7 +363,33 @@ def load_via_db(cmd: type, sb: L.Sandbox) -> Any:
     return f
 
 
+def load_via_meta_new_process(cmd: type, sb: L.Sandbox) -> Any:
+    """As load_via_meta, but the real Rerunner runs in a NEW interpreter (what `gallia script rerun` always is):
+    defaults that are computed when gallia is imported differ there, only what the stored document carries
+    re-creates the run.  The child prints the re-created configuration as JSON."""
+    import subprocess
+    import sys
+
+    def f(cfg: Any) -> Any:
+        command = cmd(cfg)
+        meta = os.path.join(sb.dir, "META-np.json")
+        with open(meta, "w") as fh:
+            fh.write(command.run_meta.json() + "\n")
+        code = ("import sys, logging; logging.disable(logging.CRITICAL)\n"
+                "from gallia.commands.script.rerun import Rerunner, RerunnerConfig\n"
+                "from harness import c18_cases as C\n"
+                "cfg = C._rerun(Rerunner(RerunnerConfig(file=sys.argv[1])), None)\n"
+                "sys.stdout.write('C18-RECREATED ' + cfg.model_dump_json() + '\\n')\n")
+        p = subprocess.run([sys.executable, "-c", code, meta], capture_output=True, text=True, timeout=300)
+        line = next((ln for ln in p.stdout.splitlines() if ln.startswith("C18-RECREATED ")), None)
+        if line is None:
+            raise RuntimeError(f"rerun in a new process failed: {p.stderr[-300:]}")
+        return type(cfg).model_validate_json(line[len("C18-RECREATED "):])
+    return f
+
+
 LOADERS = {"model_dump_json": load_direct, "META.json+Rerunner": load_via_meta,
+           "META.json+Rerunner(new process)": load_via_meta_new_process,
            "run_meta row+Rerunner": load_via_db}
 
 
@@ -473,6 +499,8 @@ def run_command(job: dict[str, Any]) -> dict[str, Any]:
         for cfg, origin in list(seen_cfg.values())[::step][:n_meta]:
             add(cfg, origin, "META.json+Rerunner")
             add(cfg, origin, "run_meta row+Rerunner")
+        for cfg, origin in list(seen_cfg.values())[:1]:
+            add(cfg, origin, "META.json+Rerunner(new process)")
         return out
     finally:
         sb.close()
